@@ -145,15 +145,109 @@ def wildcard_position_stratum(ctx, d, n):
             done += 1
 
 
+SPAN_ROWS = [("vfoo", ["0x8(%rax)", "0x10(%rbx)"]), ("mov", ["(%rax)", "%rbx"]), ("add", ["$0x8", "%rcx"]), ("lea", ["(%rcx,%rdx,8)", "%rsi"]),
+             ("lea", ["0x10(%rbx)", "%rax"]), ("vbar", ["(%rsi)", "(%rdi)"]), ("vbar", ["(%rdi)", "(%rsi)"]), ("mov", ["0x8(%rax)", "%rdx"]),
+             ("mov", ["%rdx", "0x18(%rax,%rcx,4)"]), ("mov", ["0x10(%rax)", "%ebx"]), ("add", ["%ebx", "%ecx"]), ("lea", ["(%rcx,%rdx,8)", "%rsi"]),
+             ("mov", ["(%rax,%rdi,8)", "%edx"]), ("ret", [])]
+# (one-item rule, found?) - what "found" needs in the negative cells is an element reaching from one operand into the next one
+SPAN_CELLS = [({"vfoo": [{"$deref": {"main_reg": "&p", "constant_offset": "0x10"}}]}, False), ({"vfoo": [{"$deref": {"main_reg": "&p", "constant_offset": "0x8"}}]}, True),
+              ({"vfoo": [{"$deref": {"main_reg": "rax", "constant_offset": "&k"}}, {"$deref": {"main_reg": "rbx", "constant_offset": "&j"}}]}, True),
+              ({"vfoo": [{"$deref": {"main_reg": "rax", "constant_offset": "&k"}}, {"$deref": {"main_reg": "rax", "constant_offset": "&j"}}]}, False),
+              ({"vbar": [{"$deref": {"main_reg": "&p"}}, {"$deref": {"main_reg": "rdi"}}]}, True), ({"vbar": [{"$deref": {"main_reg": "&p"}}, {"$deref": {"main_reg": "&p"}}]}, False),
+              ({"mov": [{"$deref": {"main_reg": "&p", "constant_offset": "0x8"}}, "%rdx"]}, True), ({"mov": ["%rdx", {"$deref": {"main_reg": "&b", "register_multiplier": "&i", "constant_multiplier": 4, "constant_offset": "&k"}}]}, True),
+              ({"mov": [{"$deref": {"main_reg": "&b", "register_multiplier": "rcx", "constant_multiplier": 4, "constant_offset": "0x18"}}]}, False),
+              # degenerate shapes (their reading is C06's subject): whatever they match is one record of one instruction
+              ({"mov": [{"$deref": {"main_reg": "rax", "constant_multiplier": 8}}]}, None), ({"mov": [{"$deref": {"constant_multiplier": 8}}]}, None),
+              ({"lea": [{"$deref": {"register_multiplier": "rdx"}}]}, None), ({"mov": [{"$deref": {"main_reg": "&p", "constant_multiplier": 8}}]}, None),
+              ({"mov": [{"$deref": {"constant_offset": "&k", "constant_multiplier": 4}}]}, None), ({"add": [{"$deref": {"main_reg": "rcx", "constant_multiplier": 8}}]}, None),
+              ({"mov": [{"$deref": {"main_reg": "rax", "constant_multiplier": 4, "constant_offset": "0x18"}}]}, None), ({"mov": [{"$deref": {"main_reg": "%rax", "constant_multiplier": "0x8"}}]}, None)]
+
+
+def operand_span_stratum(ctx, ws):
+    """One-item rules with $deref components (names, literals, degenerate field combinations) on instructions with two memory
+    operands: every hit is exactly one record, and a cell that could only be found by an element reaching across `],[` into the
+    next operand (or into the next instruction) is not found. By construction, identical at every seed."""
+    from jv import listing as L
+    insts, addr = [], 0x401000
+    for m, ops in SPAN_ROWS:
+        insts.append(L.SInst(addr, m, list(ops), None, None, 4))
+        addr += 4
+    text = L.render(insts, ctx.rng, labels=False)
+    lp = ws.write("span.s", text)
+    for item, want in SPAN_CELLS:
+        rule = real.dump_rule({"pattern": [item]})
+        res = real.match(ws.write("span.yaml", rule), lp, ret="list", search="all", only_addr=False)
+        ctx.ran()
+        if res[0] != "ok":
+            ctx.event("operand_span_cells_rejected_by_the_compiler")
+            continue
+        ctx.event("operand_span_cells")
+        ctx.case(("operand-span", rule), bool(res[1]), stratum="operand span cells", outcome="found" if res[1] else "not found")
+        case = {"operand_span": True, "rule": rule, "listing": text, "want": want}
+        mn = next(iter(item))
+        bad = [h for h in res[1] if h.count("|") != 1 or not h.endswith("|") or "::" + mn + "," not in h.split("|")[0]]
+        if bad:
+            ctx.disagreement(case, f"a one-item rule on `{mn}` reports a hit that is not one `{mn}` record: {bad[0][:200]!r} | regex={str(res[2])[:400]}")
+        elif want is not None and bool(res[1]) != want:
+            ctx.disagreement(case, f"one-item rule {item}: expected {'found' if want else 'not found'} (each $deref stands for ONE operand), got {str(res[1])[:200]} | regex={str(res[2])[:400]}")
+
+
+def replay_span(ctx, case):
+    ws = real.Workspace()
+    res = real.match(ws.write("span.yaml", case["rule"]), ws.write("span.s", case["listing"]), ret="list", search="all", only_addr=False)
+    ctx.ran()
+    if res[0] != "ok":
+        return
+    bad = [h for h in res[1] if h.count("|") != 1]
+    if bad or (case.get("want") is not None and bool(res[1]) != case["want"]):
+        ctx.disagreement(case, f"operand span cell: hits {str(res[1])[:200]}, expected found={case.get('want')} and one record per hit")
+
+
+def consecutive_in_listing(d, prep):
+    """The stream JASM built differs from the instruction lines of the synthetic listing (never observed on the pinned tree). Judged at
+    the level of this property: a two-item rule made of the instructions before and after the first differing line is reported
+    exactly where the LISTING holds those two instructions one after the other."""
+    from jv import stream as S
+    ctx = d.ctx
+    try:
+        dec = S.decode(prep.stream) if prep.stream is not None else []
+    except S.StreamError:
+        return
+    n = next((i for i, (a, b) in enumerate(zip(dec, prep.expect)) if a != b), min(len(dec), len(prep.expect)))
+    if not 1 <= n < len(prep.expect) - 1:
+        return
+
+    def item(k):
+        _, m, ops = prep.expect[k]
+        names = [o for o in ops if RG.clean(o)]
+        return ({m: names} if names and len(names) == len(ops) else m), m, (list(ops) if names and len(names) == len(ops) else None)
+    (i1, m1, o1), (i2, m2, o2) = item(n - 1), item(n + 1)
+    text = real.dump_rule({"config": {"mnemonics-full-match": True, "operands-full-match": True}, "pattern": [i1, i2]})
+
+    def is_(k, m, o):
+        return prep.expect[k][1] == m and (o is None or list(prep.expect[k][2][:len(o)]) == o)
+    want = [prep.expect[k][0] for k in range(len(prep.expect) - 1) if is_(k, m1, o1) and is_(k + 1, m2, o2)]
+    r = real.match(d.ws.write("pd.yaml", text), prep.path, ret="list", search="all", only_addr=True)
+    ctx.ran()
+    ctx.event("two_item_rules_around_a_line_the_stream_lacks")
+    if r[0] == "ok" and list(r[1]) != want:
+        ctx.disagreement({"rule": text, "listing": prep.text, "sinsts": [[x.addr, x.mnem, x.ops, x.annotation, x.comment, x.nbytes] for x in prep.sinsts],
+                          "desc": "not-consecutive", "not_consecutive": want},
+                         f"[{i1}, {i2}] is reported at {str(r[1])[:120]}; the listing holds these two instructions one after the other at {want[:6]} only ({prep.why})")
+
+
 def run_shard(ctx):
     d = drive.Driver(ctx, feat, flags="random", styles=("mixed", "runs", "dups", "tiny", "multisec", "kernel"), judge_model=False, extra=monitor,
                      interesting=None)
     d.macros = [MACROS]
+    d.on_parser_disagreement = consecutive_in_listing
     d.loop(2500, 120000)
     wildcard_position_stratum(ctx, d, ctx.share(400, 16000))
     from jv import strata
     if ctx.shard % 4 == 0:
         strata.same_stat_probe(ctx, d.ws, 3)
+    if ctx.shard % 4 == 1:
+        operand_span_stratum(ctx, d.ws)
     d.strict = True
     strata.operand_not_stratum(ctx, d, ctx.share(160, 6000))       # "no element spans two operands": $not followed by further operand items
     d.strict = False
@@ -163,11 +257,19 @@ def run_shard(ctx):
 
 
 def replay(ctx, case):
+    if case.get("operand_span"):
+        return replay_span(ctx, case)
     if case.get("same_stat"):
         from jv import strata
         return strata.same_stat_probe(ctx, real.Workspace(), 8, binary=bool(case.get("binary")))
     ws = real.Workspace()
     prep = dsl.prep_from_case(ws, case)
+    if case.get("desc") == "not-consecutive":
+        r = real.match(ws.write("pd.yaml", case["rule"]), prep.path, ret="list", search="all", only_addr=True)
+        ctx.ran()
+        if r[0] == "ok" and list(r[1]) != case["not_consecutive"]:
+            ctx.disagreement(case, f"reported at {str(r[1])[:120]}; consecutive in the listing at {case['not_consecutive'][:6]} only")
+        return
     if not prep.verify(ws):
         ctx.inconc("parser disagreement: " + prep.why)
         return
